@@ -279,7 +279,8 @@ def r16d(run, C):
                 raise Raised("TypeError", ("not a class",))
             return outcome == "A"
         return d
-    registries = [()] + [c for n_ in (1, 2, 3) for c in itertools.product("ARX", repeat=n_)]
+    depth = (1, 2, 3, 4) if run.thorough else (1, 2, 3)       # thorough: registries of up to four entries
+    registries = [()] + [c for n_ in depth for c in itertools.product("ARX", repeat=n_)]
     for reg in registries:
         for cache in (True, False):
             for memoised in (False, True):
